@@ -34,19 +34,19 @@ func init() {
 	for k, v := range map[string]externalFn{
 		// ---- harness vocabulary
 		rt + "Symbolic": func(fr *frame, a []value) value { return true },
-		rt + "U8":       func(fr *frame, a []value) value { return fr.i.nondet(a[0].(string), 8) },
-		rt + "U16":      func(fr *frame, a []value) value { return fr.i.nondet(a[0].(string), 16) },
-		rt + "U32":      func(fr *frame, a []value) value { return fr.i.nondet(a[0].(string), 32) },
-		rt + "U64":      func(fr *frame, a []value) value { return fr.i.nondet(a[0].(string), 64) },
-		rt + "I32":      func(fr *frame, a []value) value { return fr.i.nondet(a[0].(string), 32) },
-		rt + "I64":      func(fr *frame, a []value) value { return fr.i.nondet(a[0].(string), 64) },
-		rt + "Int":      func(fr *frame, a []value) value { return fr.i.nondet(a[0].(string), 64) },
-		rt + "Bool":     func(fr *frame, a []value) value { return fr.i.nondet(a[0].(string), 0) },
+		rt + "U8": func(fr *frame, a []value) value { return fr.i.nondetTyped(fr, a[0].(string), 8) },
+		rt + "U16": func(fr *frame, a []value) value { return fr.i.nondetTyped(fr, a[0].(string), 16) },
+		rt + "U32": func(fr *frame, a []value) value { return fr.i.nondetTyped(fr, a[0].(string), 32) },
+		rt + "U64": func(fr *frame, a []value) value { return fr.i.nondetTyped(fr, a[0].(string), 64) },
+		rt + "I32": func(fr *frame, a []value) value { return fr.i.nondetTyped(fr, a[0].(string), 32) },
+		rt + "I64": func(fr *frame, a []value) value { return fr.i.nondetTyped(fr, a[0].(string), 64) },
+		rt + "Int": func(fr *frame, a []value) value { return fr.i.nondetTyped(fr, a[0].(string), 64) },
+		rt + "Bool": func(fr *frame, a []value) value { return fr.i.nondetTyped(fr, a[0].(string), 0) },
 		rt + "Bytes": func(fr *frame, a []value) value {
 			n := int(fr.i.concInt(a[1], "Bytes-len"))
 			out := make([]value, n)
 			for k := range out {
-				out[k] = fr.i.nondet(a[0].(string), 8)
+				out[k] = unliftV(fr.i.nondet(a[0].(string), 8), types.Typ[types.Uint8])
 			}
 			return out
 		},
@@ -170,6 +170,13 @@ func init() {
 				}
 			}
 			return n
+		},
+		rt + "StubFunc": func(fr *frame, a []value) value {
+			if fr.i.stubs == nil {
+				fr.i.stubs = make(map[string]value)
+			}
+			fr.i.stubs[a[0].(string)] = a[1].(iface).v
+			return nil
 		},
 		rt + "IsConcrete": func(fr *frame, a []value) value {
 			_, ok := bytesOf(a[0])
@@ -418,6 +425,10 @@ func init() {
 		},
 		"time.runtimeNano": func(fr *frame, a []value) value { return int64(0) },
 		"time.now":         func(fr *frame, a []value) value { return tuple{int64(0), int32(0), int64(0)} },
+		// Time.Sub by its contract (its body re-derives the result with a
+		// division by 10^9): saturating (t.sec-u.sec)*1e9 + (t.nsec-u.nsec)
+		"(time.Time).Sub": ext۰time۰Sub,
+		"math/rand.Seed":  extNop,
 		"(time.Time).String": func(fr *frame, a []value) value { return "<time>" },
 		"(time.Time).Format": func(fr *frame, a []value) value { return "<time>" },
 		"(time.Duration).String": func(fr *frame, a []value) value { return "<duration>" },
@@ -503,6 +514,11 @@ func arrayOf(b []byte) array {
 
 // nondet creates a fresh symbolic input.
 func (i *interpreter) nondet(name string, w int) value {
+	if fm := i.ex.cfg.FixedModel; fm != nil {
+		// concrete re-execution: the model's value (same naming scheme)
+		t := i.tt.Fresh(w, name)
+		return i.tt.Const(w, fm[t.Name])
+	}
 	t := i.tt.Fresh(w, name)
 	i.run.nondets = append(i.run.nondets, nondetRec{Name: t.Name, W: w, T: t})
 	return t
@@ -966,25 +982,23 @@ func (i *interpreter) timeValue(sec, nsec value) value {
 	return structure{wall, ext, local}
 }
 
-// time.Now: arbitrary non-decreasing instants within 2009..2100.
+// time.Now: arbitrary non-decreasing instants within 2009..2100, whole
+// seconds (sub-second parts only matter to harnesses that bring their own
+// clock).
 func ext۰time۰Now(fr *frame, a []value) value {
 	i := fr.i
-	sec := i.nondet("now.sec", 64).(*Term)
-	nsec0 := i.nondet("now.nsec", 32).(*Term)
-	tt := i.tt
-	// 30 bits zero-extended (sign and monotonic bits syntactically zero)
-	nsec := tt.Bin(OpLShr, nsec0, tt.Const(32, 2))
-	i.assume(tt.Cmp(OpSle, tt.Const(64, 1230768000), sec)) // 2009-01-01
-	i.assume(tt.Cmp(OpSle, sec, tt.Const(64, 4102444800))) // 2100-01-01
-	i.assume(tt.Cmp(OpUlt, nsec, tt.Const(32, 1000000000)))
-	if prev, ok := i.store["time.last.sec"]; ok {
-		ps, pn := prev.(*Term), i.store["time.last.nsec"].(*Term)
-		later := tt.BOr(tt.Cmp(OpSlt, ps, sec), tt.BAnd(tt.Cmp(OpEq, ps, sec), tt.Cmp(OpUle, pn, nsec)))
-		i.assume(later)
+	if i.inInit > 0 {
+		// package initialisers (PRNG seeds etc.) see a fixed instant
+		return i.timeValue(int64(1700000000), int32(0))
 	}
-	i.store["time.last.sec"] = sec
-	i.store["time.last.nsec"] = nsec
-	return i.timeValue(sec, nsec)
+	sec := i.nondet("now.sec", 64).(*Term)
+	tt := i.tt
+	i.assume(tt.BAnd(tt.Cmp(OpSle, tt.Const(64, 1230768000), sec), tt.Cmp(OpSle, sec, tt.Const(64, 4102444800)))) // 2009..2100
+	if prev, ok := i.store["time.last.sec"]; ok {
+		i.assume(tt.Cmp(OpSle, i.lift(prev), sec))
+	}
+	i.store["time.last.sec"] = unlift(sec, types.Typ[types.Int64])
+	return i.timeValue(unlift(sec, types.Typ[types.Int64]), int32(0))
 }
 
 var _ = unsafe.Pointer(nil)
@@ -1017,7 +1031,7 @@ func (i *interpreter) itev(a []value, t types.Type) value {
 func (i *interpreter) fillRandom(p []value) {
 	for k := range p {
 		if i.symbolicRand {
-			p[k] = i.nondet("rand", 8)
+			p[k] = unliftV(i.nondet("rand", 8), types.Typ[types.Uint8])
 		} else {
 			i.randCtr++
 			p[k] = uint8(i.randCtr*131 + 7)
@@ -1032,4 +1046,44 @@ func bigRecv(fr *frame, a []value) value {
 		return &cell
 	}
 	return a[0]
+}
+
+// unliftV unboxes constant terms (concrete re-execution mode).
+func unliftV(v value, t types.Type) value {
+	if tm, ok := v.(*Term); ok {
+		return unlift(tm, t)
+	}
+	return v
+}
+
+func (i *interpreter) nondetTyped(fr *frame, name string, w int) value {
+	return unliftV(i.nondet(name, w), fr.fn.Signature.Results().At(0).Type())
+}
+
+func ext۰time۰Sub(fr *frame, a []value) value {
+	i := fr.i
+	p := i.P.pkgByPath["time"]
+	secFn := i.prog.LookupMethod(types.NewPointer(p.Type("Time").Type()), p.Pkg, "sec")
+	nsecFn := i.prog.LookupMethod(types.NewPointer(p.Type("Time").Type()), p.Pkg, "nsec")
+	get := func(t value) (value, value) {
+		cell := copyVal(t)
+		s := call(i, fr, token.NoPos, secFn, []value{&cell})
+		n := call(i, fr, token.NoPos, nsecFn, []value{&cell})
+		return s, n
+	}
+	ts, tn := get(a[0])
+	us, un := get(a[1])
+	i64 := types.Typ[types.Int64]
+	diff := i.binop(token.SUB, i64, i64, ts, us)
+	const lim = int64(9223372035) // (2^63-1)/1e9 - 1
+	if i.truth(i.binop(token.GTR, i64, i64, diff, lim)) {
+		return int64(1<<63 - 1)
+	}
+	if i.truth(i.binop(token.LSS, i64, i64, diff, -lim)) {
+		return int64(-1 << 63)
+	}
+	d := i.binop(token.MUL, i64, i64, diff, int64(1000000000))
+	dn := i.binop(token.SUB, types.Typ[types.Int32], types.Typ[types.Int32], tn, un)
+	d = i.binop(token.ADD, i64, i64, d, i.conv(i64, types.Typ[types.Int32], dn))
+	return d
 }
